@@ -226,7 +226,7 @@ META = {
    level_text='Proved in Coq for all inputs: a file entry verifies only if the object is a regular file of matching size whose content has every listed checksum '
               '(or is not newer than last_mtime with unchanged size); a stray object is a mismatch; IGNORE verifies; IGNORE matching is component-wise; the '
               'directory verdict is the conjunction of all per-path verdicts; for one directory exactly which objects are presented (C01_directory_is_its_items, C01_items_exactly: every visible listed file once, with its entry or none; '
-              'sub-directories with entries; every entry not met as a missing file). PARTIAL: the composition over the tree (recursion, IGNORE pruning, per-directory dictionaries) is covered by the correspondence of whole-tree runs only.',
+              'sub-directories with entries; every entry not met as a missing file); two entries for one path are compatible iff tags agree, sizes are equal and every hash carried by both has one value - a conflicting common hash is never forgiven (C01_duplicates_compatible_iff, C01_conflict_not_forgiven). PARTIAL: the composition over the tree (recursion, IGNORE pruning, per-directory dictionaries) is covered by the correspondence of whole-tree runs only.',
    level_note='About Model/{FS,Verify,Loader}.v; filesystem, hashlib and codecs are oracles; the model is the reference for verdict disagreements.'),
  'C02': dict(engine='coq+tree', design_ref='DESIGN.md section 5 C02',
    technique='Coq invariant proof over Manifest loading rounds + differential tamper matrix on realised trees',
